@@ -39,7 +39,9 @@ FS_WRITE_FUNCS = {
     "os.removedirs", "os.symlink", "os.link", "os.truncate", "shutil.rmtree", "shutil.move",
     "shutil.copy", "shutil.copyfile", "shutil.copytree", "shutil.copyfileobj",
     "tempfile.mkdtemp", "tempfile.mkstemp", "tempfile.NamedTemporaryFile",
-    "tempfile.TemporaryDirectory",
+    "tempfile.TemporaryDirectory", "tempfile.TemporaryFile", "tempfile.SpooledTemporaryFile",
+    "os.write", "os.pwrite", "os.writev", "os.ftruncate", "os.chmod", "os.chown", "os.utime", "os.mkfifo",
+    "os.renames", "shutil.copy2", "shutil.copymode", "shutil.copystat", "shutil.chown", "shutil.make_archive",
 }
 FS_WRITE_METHODS = {
     "unlink", "rmdir", "mkdir", "touch", "write_text", "write_bytes", "rename", "replace",
@@ -55,6 +57,18 @@ def _open_mode_writes(call: ast.Call) -> Optional[bool]:
     """open(...)/Path.open(...) -> True if the mode may write, False if read-only,
     None if this is not an open call."""
     name = call_attr(call)
+    if name in ("fdopen", "FileIO"):
+        # os.fdopen(fd, mode) / io.FileIO(path, mode): the mode is the second positional argument
+        mode = None
+        for k in call.keywords:
+            if k.arg == "mode":
+                mode = k.value
+        if mode is None and len(call.args) > 1:
+            mode = call.args[1]
+        if mode is None:
+            return False
+        m = const_str(mode)
+        return True if m is None else any(ch in m for ch in "wax+")
     if name != "open":
         return None
     is_builtin = isinstance(call.func, ast.Name)
